@@ -60,6 +60,7 @@ Fixpoint tsize (f : nat) (o : opts) (t : ty) {struct f} : N :=
       | Some (RSlice _) => 24
       | Some (RArray n t') => n * tsize f' o t'
       | Some (RMap _ _) => 8
+      | Some (RMarsh _ _) => 0      (* Marshaler type: size and allocations are the user's, not accounted *)
       end
     end
   end.
@@ -181,6 +182,7 @@ Fixpoint alloc_val (cf : bool) (f : nat) (o : opts) (t : ty) (b : bytes) {struct
         | RMap tk tv =>
           alloc_mapb cf edtReg (tsize f' o tk) (tsize f' o tv)
                      (alloc_val cf f' o tk) (alloc_val cf f' o tv) (dec_val f' o tk) (dec_val f' o tv) b
+        | RMarsh _ _ => 0
         end
       end
     end
@@ -228,4 +230,7 @@ Definition KA : N := 200.
    what has to hold of a decoded (type, value) for the round-trip theorem of the Edf engine to
    apply to its re-encoding with the options of the opposite direction *)
 Definition reenc_guard (o : opts) (t : ty) (v : val) : bool :=
-  wf_opts_b (dual o) && supported (dual o) t v.
+  wf_opts_b (dual o) && supported (dual o) t v &&
+  (* registries with Marshaler types: re-encoding runs user code; the Edf theorem then needs the
+     hypothesis [marsh_inv] (C11) - not covered here *)
+  forallb (fun e => negb (is_marsh (snd e))) (o_reg o).
